@@ -489,7 +489,31 @@ def dedup(ctx: Any) -> List[Ob]:
                     v = st.value
                     good = (isinstance(v, ast.Call) and norm(v.func) in ('set',) and not v.args) or isinstance(v, ast.Set)
         obs.append(ob(R, f, f'{r} = set()', 'withdrawn records are collected in a set (no double removal)', good))
+    obs.extend(told_equals_done_obligations(ctx, R))
     return obs
+
+
+def told_equals_done_obligations(ctx: Any, R: str) -> List[Ob]:
+    """What the listeners were told is what happens to the cache: a record that was paired for the listeners as withdrawn stays
+    in the set of removals until that set is handed to the cache, and a record paired as new stays in the add lists -- nothing
+    takes a record out again (`discard`, `remove`, `clear`, `-=`) between telling and doing.  (A browser that was told
+    Removed while the cache keeps the record never hears of that service again: every later announcement is a refresh.)"""
+    an = ingest_anatomy(ctx)
+    f = an['f']
+    colls = list(an['removes']) + [x for x in an.get('adds', []) if isinstance(x, str)]
+    names = set(an['removes'])
+    for st in walk_local_ordered(f.node):
+        if isinstance(st, ast.Call) and call_name(st) in ('async_add_records',) and st.args and isinstance(st.args[0], ast.Name):
+            names.add(st.args[0].id)
+    bad = []
+    for x in walk_local_ordered(f.node):
+        if isinstance(x, ast.Call) and isinstance(x.func, ast.Attribute) and isinstance(x.func.value, ast.Name) and x.func.value.id in names and x.func.attr in ('discard', 'remove', 'clear', 'pop', 'difference_update', 'intersection_update', '__delitem__'):
+            bad.append(x)
+        if isinstance(x, ast.AugAssign) and isinstance(x.target, ast.Name) and x.target.id in names and isinstance(x.op, (ast.Sub, ast.BitAnd)):
+            bad.append(x)
+        if isinstance(x, ast.Delete) and any(isinstance(t, ast.Subscript) and isinstance(t.value, ast.Name) and t.value.id in names for t in x.targets):
+            bad.append(x)
+    return [ob(R, f, bad[0] if bad else f'{sorted(names)} only grow', 'the collections of withdrawn and of new records only grow between pairing a record for the listeners and applying it to the cache', bool(names) and not bad, f'`{norm(bad[0])}` takes a record out again' if bad else '')]
 
 
 def refresh_obligations(ctx: Any, R: str) -> List[Ob]:
